@@ -12,7 +12,7 @@ PROP_FILES = ["theories/Props/C11.v", "theories/Inst/C11_inst.v"]
 DEPS = ["theories/Proofs/C11_proofs.vo", "theories/Gen/Constants.vo", "theories/Gen/Ladders.vo", "theories/Gen/CliTable.vo"]
 
 DIRNAMES = ["pkg", "src", "test", "tests", "contest", ".git", ".github", ".hg", "__pycache__", "build", "x.egg", "a.egg-info",
-            "sub", ".tox", "docs", "examples_test", "CVS", "héllo", "sp ace", "node.git"]
+            "sub", ".tox", "docs", "examples_test", "CVS", "héllo", "sp ace", "node.git", "src2", "pkgx", "testsuite"]
 FILENAMES = ["a.py", "b.py", "setup.py", "mod.pyw", "notes.txt", "test_a.py", "conftest.py", ".hidden.py", "data.json", "x.pyc",
              "Makefile", "c.PY", "ünï.py", "a.py.bak", "git.py"]
 DEFAULT_X = ".svn,CVS,.bzr,.hg,.git,__pycache__,.tox,.eggs,*.egg"
@@ -108,18 +108,30 @@ def run(R, replay=None):
         explicit = rng.sample(files, min(len(files), rng.randint(0, 2)))
         targets = [spelling] + explicit
         rng.shuffle(targets)
+        # now and then several directory targets, in an order where one name is a string prefix of the next
+        tops = sorted({d_.split("/")[0] for d_ in dirs if d_})
+        multi = rng.random() < 0.3 and len(tops) >= 2
+        if multi:
+            targets = sorted(rng.sample(tops, min(len(tops), rng.randint(2, 3)))) + explicit
+        # exclusions that come from the configuration file (exclude_dirs), spelled with and without a trailing slash
+        cfg_x = rng.choice([None, None, ["tests/"], ["test/", "docs/"], ["build"], ["sub/", "*.txt"], ["pkg/sub/"]])
         old = os.getcwd()
         os.chdir(root)
         try:
-            mgr = impl.make_manager()
+            cfgf = None
+            if cfg_x is not None:
+                import yaml
+                cfgf = os.path.join(base, "cfg%d.yaml" % it)
+                yaml.safe_dump({"exclude_dirs": cfg_x}, open(cfgf, "w"))
+            mgr = impl.make_manager(config_file=cfgf)
             inc = list(mgr.b_conf.get_option("include") or ["*.py"])
             mgr.discover_files(list(targets), recursive, xp)
             got_f, got_x = list(mgr.files_list), list(mgr.excluded_files)
-            isdir = {t: os.path.isdir(t) for t in set(targets) | set(xp.split(","))}
+            isdir = {t: os.path.isdir(t) for t in set(targets) | set(xp.split(",")) | set(cfg_x or [])}
             walks = {t: [(r, sorted(fs)) for r, _, fs in os.walk(t)] for t in targets if isdir.get(t)}
         finally:
             os.chdir(old)
-        inp = {"tree_files": files, "targets": targets, "recursive": recursive, "exclude": xp}
+        inp = {"tree_files": files, "targets": targets, "recursive": recursive, "exclude": xp, "config_exclude_dirs": cfg_x}
         R.case(("tree", tuple(files), tuple(targets), recursive, xp), sample=dict(inp, scanned=got_f[:8], excluded=got_x[:6]))
         R.count("x:" + (xp or "<empty>"))
         R.count("spelling:" + ("abs" if spelling == root else spelling))
@@ -130,17 +142,19 @@ def run(R, replay=None):
         if both_n:
             R.violations.append({"what": "a file is listed both as in scope and as excluded", "input": inp, "observed": sorted(both_n)[:5],
                                  "signature": "explicit-file-in-both-lists"})
-        if recursive and os.path.isdir(os.path.join(root, spelling)) or (spelling == root and recursive):
-            tdir = spelling
+        if recursive and (multi or os.path.isdir(os.path.join(root, spelling)) or spelling == root):
             walked = []
-            for r, _, fs in os.walk(os.path.join(root, tdir) if tdir != root else root):
-                for f in fs:
-                    walked.append(os.path.relpath(os.path.join(r, f), root))
+            for tdir in ([t for t in targets if t not in explicit] if multi else [spelling]):
+                for r, _, fs in os.walk(os.path.join(root, tdir) if tdir != root else root):
+                    for f in fs:
+                        w_ = os.path.relpath(os.path.join(r, f), root)
+                        if w_ not in walked:
+                            walked.append(w_)
             listed = {norm(p if not os.path.isabs(p) else os.path.relpath(p, root)) for p in got_f + got_x}
             for w in walked:
                 if norm(w) not in listed:
                     R.violations.append({"what": "a walked file is in neither list", "input": inp, "observed": w, "signature": None})
-            pats = [x for x in xp.split(",") if x]
+            pats = [x for x in xp.split(",") if x] + list(cfg_x or [])
             for w in walked:
                 parts = w.split(os.sep)
                 matches_inc = any(fnmatch.fnmatchcase(parts[-1], g) for g in inc)
@@ -149,7 +163,7 @@ def run(R, replay=None):
                 got = norm(w) in {norm(p if not os.path.isabs(p) else os.path.relpath(p, root)) for p in got_f}
                 if want != got and w not in explicit:
                     sig = None
-                    if want and not got and any(p.strip("*/") and p.strip("*/") in w for p in pats):
+                    if want and not got and any((p.strip("*/") and p.strip("*/") in w) or (p and not any(ch in p for ch in "*?[") and p in "./" + w) for p in pats):
                         sig = "exclude-by-substring"
                     elif (not want) and got and excl:
                         sig = "exclude-depends-on-spelling"
@@ -157,7 +171,9 @@ def run(R, replay=None):
                         w, "scanned" if got else "not scanned", "is in scope" if want else "is excluded / out of scope"),
                         "input": inp, "observed": {"scanned": got_f[:8]}, "signature": sig})
         if not recursive:
-            if any(os.path.isdir(os.path.join(root, t)) and [p for p in got_f + got_x if p.startswith(t.rstrip("/") + "/")] for t in targets if t not in (".", "./")):
+            expl = {os.path.normpath(e) for e in explicit}
+            if any(os.path.isdir(os.path.join(root, t)) and [p for p in got_f + got_x if p.startswith(t.rstrip("/") + "/") and os.path.normpath(p) not in expl]
+                   for t in targets if t not in (".", "./")):
                 R.violations.append({"what": "a directory given without -r was descended", "input": inp, "observed": got_f[:5], "signature": None})
         # ---- model
         def fs_coq():
@@ -166,8 +182,9 @@ def run(R, replay=None):
                         for t, w in walks.items()], "pstr * walk_listing")
             return isd, wk
         isd, wk = fs_coq()
-        cases.append(("(%s, %s, %s, %s, %s, %s)" % (isd, wk, L.lst([L.pstr(x) for x in inc], "pstr"),
-                                                     L.lst([L.pstr(t) for t in targets], "pstr"), L.B(recursive), L.pstr(xp)),
+        cases.append(("(%s, %s, %s, %s, %s, %s, %s)" % (isd, wk, L.lst([L.pstr(x) for x in inc], "pstr"),
+                                                         L.lst([L.pstr(t) for t in targets], "pstr"), L.B(recursive), L.pstr(xp),
+                                                         L.lst([L.pstr(x) for x in (cfg_x or [])], "pstr")),
                       "(%s, %s)" % (L.lst([L.pstr(x) for x in got_f], "pstr"), L.lst([L.pstr(x) for x in got_x], "pstr"))))
         descr.append(inp)
         # predicate pool
@@ -186,10 +203,10 @@ def run(R, replay=None):
              "  FS (fun p => match assoc p isd with Some b => b | None => false end) (fun p => match assoc p wk with Some w => w | None => [] end).\n"
              "Fixpoint dedup (l : list pstr) : list pstr := match l with [] => [] | x :: t => if mem_pstr x t then dedup t else x :: dedup t end.\n"
              "Definition canon (l : list pstr) := isort (dedup l).\n"
-             "Definition run (x : list (pstr * bool) * list (pstr * walk_listing) * list pstr * list pstr * bool * pstr) :=\n"
-             "  match x with (isd, wk, inc, targets, rec, xp) => let r := discover (mkfs isd wk) inc [] targets rec xp in (canon (fst r), canon (snd r)) end.\n"
+             "Definition run (x : list (pstr * bool) * list (pstr * walk_listing) * list pstr * list pstr * bool * pstr * list pstr) :=\n"
+             "  match x with (isd, wk, inc, targets, rec, xp, cfgx) => let r := discover (mkfs isd wk) inc cfgx targets rec xp in (canon (fst r), canon (snd r)) end.\n"
              "Definition peq (a b : list pstr * list pstr) := list_eqb pstr_eqb (fst a) (canon (fst b)) && list_eqb pstr_eqb (snd a) (canon (snd b)).\n")
-    mm, br = core.unit_corr(imports, "run", "list (pstr * bool) * list (pstr * walk_listing) * list pstr * list pstr * bool * pstr",
+    mm, br = core.unit_corr(imports, "run", "list (pstr * bool) * list (pstr * walk_listing) * list pstr * list pstr * bool * pstr * list pstr",
                             "list pstr * list pstr", "peq", cases, extra_defs=extra, label="c11d", shard=100)
     R.broken.extend(br)
     for i, tail in mm[:10]:
